@@ -215,23 +215,24 @@ func interleave(rng *rand.Rand, fs []msgx.Field) []msgx.Field {
 
 // hset is a drawn header set with the facts the oracle needs.
 type hset struct {
-	fields        []msgx.Field
-	listed        map[string]bool // lower-cased names listed in Connection lines
-	connLines     int
-	connToks      int
-	viaIn         []string
-	viaLines      int
-	self          string // "", "first-line", "later-line"
-	xffIn         []string
-	xffLines      int
-	xfp, xfh, xfu []string
-	framing       string // class name
-	flagged       bool   // framing the stack must flag
-	clConflict    bool   // ... because the Content-Length values disagree
-	teBad         bool   // ... because Transfer-Encoding does not end in chunked
-	clValue       string // canonical Content-Length value ("" = none)
-	teChunked     bool
-	body          []byte // wire body bytes (after the head)
+	fields          []msgx.Field
+	listed          map[string]bool // lower-cased names listed in Connection lines
+	connLines       int
+	connToks        int
+	viaIn           []string
+	viaLines        int
+	self            string // "", "first-line", "later-line"
+	xffIn           []string
+	xffLines        int
+	xffEndsInClient bool
+	xfp, xfh, xfu   []string
+	framing         string // class name
+	flagged         bool   // framing the stack must flag
+	clConflict      bool   // ... because the Content-Length values disagree
+	teBad           bool   // ... because Transfer-Encoding does not end in chunked
+	clValue         string // canonical Content-Length value ("" = none)
+	teChunked       bool
+	body            []byte // wire body bytes (after the head)
 }
 
 func (h *hset) class() string {
@@ -254,11 +255,15 @@ func (h *hset) class() string {
 		via += "+self-" + h.self
 	}
 	xff := [...]string{"none", "1line", "2lines"}[h.xffLines]
+	if h.xffEndsInClient {
+		xff += "+ends-in-client"
+	}
 	return "conn=" + conn + "|via=" + via + "|xff=" + xff + "|fr=" + h.framing
 }
 
 type genCtx struct {
 	rng      *rand.Rand
+	clientIP string // address of the connecting client (known before the header set is drawn)
 	instance string // "martian-<boundary>" learned from a priming request
 	mode     string
 	resp     bool
@@ -384,6 +389,13 @@ func (g *genCtx) draw() *hset {
 			var ents []string
 			for i, n := 0, 1+rng.Intn(3); i < n; i++ {
 				ents = append(ents, pool[rng.Intn(len(pool))])
+			}
+			// a fixed share of the chains already ends in the connecting client's own
+			// address (a client announcing itself, hops sharing 127.0.0.1): the proxy
+			// still appends the hop it saw
+			if g.clientIP != "" && rng.Intn(3) == 0 {
+				ents[len(ents)-1] = g.clientIP
+				h.xffEndsInClient = true
 			}
 			for _, line := range spread(rng, ents, 1+rng.Intn(2)) {
 				if len(line) == 0 {
@@ -663,6 +675,9 @@ func checkRequestHeaders(got map[string][]string, h *hset, f reqFacts, instance 
 	wantXFF := append(append([]string{}, xffIn...), f.clientIP)
 	if !eq(gotXFF, wantXFF) {
 		cls := shape(h.xffLines)
+		if h.xffEndsInClient {
+			cls = "chain-ends-in-client"
+		}
 		if h.listed["x-forwarded-for"] {
 			cls = "connection-listed"
 		}
@@ -814,6 +829,7 @@ func (d *direct) one(r *vh.Run, c c14Case) {
 	rng := r.Rng(c.Stream, c.Idx)
 	g := &genCtx{rng: rng, instance: d.instance, mode: c.Mode}
 	f := g.drawReqFacts(fmt.Sprintf("d%d", c.Idx))
+	g.clientIP = f.clientIP
 	h := g.draw()
 	g.drawFraming(h)
 	f.method = "GET"
@@ -1096,6 +1112,7 @@ func (p *proxyRun) one(r *vh.Run, c c14Case) {
 	key := fmt.Sprintf("p%d", c.Idx)
 	f := g.drawReqFacts(key)
 	f.clientIP = "10.9.8.7" // vh.PipeListener's client address
+	g.clientIP = f.clientIP
 	h := g.draw()
 	g.drawFraming(h)
 	f.method = "GET"
